@@ -92,4 +92,25 @@ PROPS = {
                  "finds a database with a new match (assumptions satisfiable)"),
         "assumptions": [],
     },
+    "C03": {
+        "level": "translation_validation",
+        "quick": {"kani": [G("c03-cr", "core-relations", ["c16_disp_fast_subset_", "c16_disp_timestamp_bounds", "c03_"], jobs=8, ht=1200, wall=3000)],
+                  "e2": {"args": [], "wall_cap": 3000}},
+        "thorough": {"kani": [G("c03-cr", "core-relations", ["c16_disp_fast_subset_", "c16_disp_timestamp_bounds", "c03_", "c03t_"], jobs=8, ht=3600, wall=10800)],
+                     "e2": {"args": [], "wall_cap": 14000}},
+        "rule": ("one 'program' = one distinct (cached plan, semi-naive variant set) dumped from the real engine while it runs a "
+                 "generated multi-ruleset history (interleaved runs of two rulesets, writes at top level and by rules between "
+                 "them, seminaive and :naive rules); per program three z3 queries: the variant set's timestamp constraints cover "
+                 "every new match; the plans emit no spurious match; the plans lose no new match -- over ALL databases / "
+                 "timestamps within the bounds. Kani harnesses decide that `ts >= t` / `ts < t` select exactly the right row "
+                 "range. Non-trivial iff a database with a new match exists."),
+        "assumptions": [
+            "E1 part: DisplacedTable::{timestamp_bounds, fast_subset} (and the SortedWritesTable timestamp index where listed) are exact for "
+            "every state within the bounds (<= 3 rows / <= 3 timestamp runs)",
+            "trace facts checked on every concrete history and reported separately (not solver obligations): each rule's "
+            "last_run_at equals the next_ts of its own previous run; next_ts strictly increases",
+            "NOT covered: that rebuilt / refreshed / container-dirtied rows are re-inserted with a fresh timestamp (table and container "
+            "code outside both engines); timestamp counter overflow",
+        ],
+    },
 }
